@@ -686,7 +686,7 @@ def readRespText (tagged : Bool) (s : Str) : Option (Code × Str) :=
           let (v, r) ← decNumber r
           let r ← expectSP r
           let (u, r) ← decNumber r
-          pure (Code.appendUID v u, r)
+          if u = 0 then none else pure (Code.appendUID v u, r)      -- "server returned UID 0"
         else if code = asc "COPYUID" then (expectSP r).bind readCopyUID
         else if !tagged && code = asc "PERMANENTFLAGS" then
           (expectSP r).bind fun r => (decList decFlag r).map fun (l, r') => (Code.permFlags l, r')
@@ -720,8 +720,11 @@ def dispatchData (num : Nat) (typ : Str) (r : Str) : Option (Event × Str) :=
   else if typ = asc "LIST" then (expectSP r).bind fun r => (readList r).map fun (d, r') => (Event.list d, r')
   else if typ = asc "STATUS" then (expectSP r).bind fun r => (readStatus r).map fun (d, r') => (Event.status d, r')
   else if typ = asc "FETCH" then
-    (expectSP r).bind fun r => (readItems r).map fun (its, r') => (Event.fetch { seq := num, items := its }, r')
-  else if typ = asc "EXPUNGE" then some (Event.expunge num, r)
+    if num = 0 then none          -- "server returned sequence number 0 in FETCH response"
+    else (expectSP r).bind fun r => (readItems r).map fun (its, r') => (Event.fetch { seq := num, items := its }, r')
+  else if typ = asc "EXPUNGE" then
+    if num = 0 then none          -- ExpungeCommand.Next uses 0 to signal the end of the stream
+    else some (Event.expunge num, r)
   else if typ = asc "SEARCH" then (readSearchNums (r.length + 1) r).map fun (l, r') => (Event.search l, r')
   else if typ = asc "ESEARCH" then
     (expectSP r).bind fun r => (readESearch r).map fun (tag, d, r') => (Event.esearch tag d, r')
